@@ -10,6 +10,9 @@ func checkC13(p *Program, tier string) *Result {
 	ruleAdmit(p, r)
 	ruleGoCapture(p, r, func(f *ssa.Function) bool { return f.Pkg != nil && f.Pkg.Pkg.Path() == loaderPkg })
 	ruleAtomicReload(p, r)
+	ruleBuildKeepsConfig(p, r)
+	// every lookup is answered (a refused connection is closed, not left waiting)
+	ruleNoBlock(p, r)
 	r.Trusted = append(r.Trusted, "net.ParseCIDR / IPNet.Contains (incl. IPv4-mapped addresses)", "the prefix provider's map iteration order does not matter because all entries of one provider hold the same configuration")
 	r.Assumptions = append(r.Assumptions, "the DNS secret provider's resolution behaviour is not analysed")
 	return r
